@@ -89,7 +89,7 @@ func refSummary(r ref.FrameResult, total int) rec {
 		blocks = []ref.FrameBlock{}
 	}
 	return rec{"status": r.Status, "consumed": r.Consumed, "contentLen": len(r.Content), "contentSha": shaID(r.Content),
-		"flg": r.Flg, "bd": r.Bd, "csize": cs, "blocks": blocks, "legacy": r.Legacy, "total": total}
+		"flg": r.Flg, "bd": r.Bd, "csize": cs, "blocks": blocks, "legacy": r.Legacy, "total": total, "linkedok": r.LinkedOK}
 }
 
 func optsRec(o wopts) rec {
